@@ -132,3 +132,37 @@ TWINS += [
                 "            labels_not_written = [x for x in self.labels_referenced if x not in self.labels_already_printed]",
                 "            labels_not_written = sorted(set(self.labels_referenced) - set(self.labels_already_printed))")]},
 ]
+
+
+# --------------------------------------------------------------------------- hand-written mutants (behaviour-breaking; tests stay green)
+
+MUTANTS += [
+    {"id": "mut-branchvalue-param-order", "props": ["C01"], "rule": "C01-R1", "what": "BranchValue parameters emitted as [var, value, operator]",
+     "edits": [(f"{CH}/blocks/ifs/header/operator.py",
+                "            self.compiler_ctx, self.ctx, OP_BRANCH_VALUE, [self.var_target, self.operator.value, self.value]",
+                "            self.compiler_ctx, self.ctx, OP_BRANCH_VALUE, [self.var_target, self.value, self.operator.value]")]},
+    {"id": "mut-scn-levels-swapped", "props": ["C01"], "rule": "C01-R1", "what": "scn if header reads the two INTEGERs in the wrong order",
+     "edits": [(f"{CH}/blocks/ifs/header/scn.py", "scn_value = exps_int(str(self.ctx.INTEGER(0)))\n        level_value = exps_int(str(self.ctx.INTEGER(1)))",
+                "scn_value = exps_int(str(self.ctx.INTEGER(1)))\n        level_value = exps_int(str(self.ctx.INTEGER(0)))")]},
+    {"id": "mut-exps-int-base10", "props": ["C16", "C01"], "what": "integers converted with base 10",
+     "edits": [("explorerscript/util.py", "            return int(to_convert, 0)", "            return int(to_convert, 10)")]},
+    {"id": "mut-half-tile-offset", "props": ["C18", "C04", "C01"], "what": "a .5 coordinate gets offset 4 instead of 2",
+     "edits": [("explorerscript/common_syntax.py", "            offset = 2", "            offset = 4")]},
+    {"id": "mut-multiline-last-line-first", "props": ["C04", "C01"], "what": "multi-line literal: a non-blank last line is put in front of the other lines",
+     "edits": [("explorerscript/ssb_converting/compiler/utils.py", "        lines.append(last_line)", "        lines.insert(0, last_line)")]},
+    {"id": "mut-label-finalizer-offset-of-removed", "props": ["C03", "C01"], "what": "labels waiting for an op get the offset of a removed jump",
+     "edits": [("explorerscript/ssb_converting/compiler/label_finalizer.py",
+                "                    if not op_was_removed:\n                        new_r.append(op)\n                        for label in labels_waiting:",
+                "                    if not op_was_removed:\n                        new_r.append(op)\n                    if True:\n                        for label in labels_waiting:")]},
+    {"id": "mut-decompiler-else-header", "props": ["C02"], "rule": "C02-R7", "what": "the if writer prints the else arm as `elseif (debug)`",
+     "edits": [("explorerscript/ssb_converting/decompiler/write_handlers/label_jumps/if_start.py", 'self.decompiler.write_stmnt(" else", False)',
+                'self.decompiler.write_stmnt(" elseif (debug)", False)')]},
+    {"id": "mut-ssbs-label-after-op", "props": ["C07", "C06"], "rule": "C07-R6", "what": "SsbScript decompiler prints a label after the op it belongs to",
+     "edits": [("explorerscript/ssb_converting/decompiler/label_jump_to_resolver.py",
+                "                if next_item.offset in self.labels:\n                    yield self.labels[next_item.offset]\n                yield next_item",
+                "                yield next_item\n                if next_item.offset in self.labels:\n                    yield self.labels[next_item.offset]")]},
+    {"id": "mut-macro-return-address-plus-two", "props": ["C08"], "what": "macro return address counts one op too many",
+     "edits": [("explorerscript/macro.py", "if not isinstance(o, SsbLabel)]) + 1", "if not isinstance(o, SsbLabel)]) + 2")]},
+    {"id": "mut-source-map-line-one-based", "props": ["C08", "C09"], "what": "ops are registered with the 1-based line",
+     "edits": [(f"{CH}/abstract.py", "self.ctx.start.line - 1", "self.ctx.start.line")]},
+]
